@@ -63,7 +63,8 @@ impl WireFormat for TimeInterval {
 
 impl From<Duration> for TimeInterval {
     fn from(duration: Duration) -> Self {
-        let val = (duration.nanos().to_bits() >> 16) as i64;
+        // saturate rather than truncate durations beyond the 2^47 ns the wire format holds
+        let val = (duration.nanos().to_bits() >> 16).clamp(i64::MIN as i128, i64::MAX as i128) as i64;
         TimeInterval(fixed::types::I48F16::from_bits(val))
     }
 }
